@@ -317,8 +317,8 @@ class C04(PropBase):
     coq_dirs = ["Base", "Gen", "C08", "C05", "C04"]
     translators = ["unwind_consts.py"]
     bins = ["c05"]
-    impl_timeout = 300
-    model_timeout = 3000     # the Coq-built scan layouts sit in the first shards; on a heavily loaded machine 900 s was not enough for the thorough tier
+    impl_timeout = 3000     # wall-clock backstop only: a hanging case is ended by the per-case CPU-time watchdog of the harness
+    model_timeout = 20000    # wall-clock backstop only: at load 170+ the thorough tier's Coq-built layouts took more than 3000 s of wall time (round 5)
     rule = ("cases = well-formed synthetic threads: (a) scan-findable stacks laid out by the Coq builder scan_layout, depth 1..64, gaps up "
             "to the window edge (159 / 39 words; MIPS64 127); (a') stacks with the technique chosen per frame (CFI / scan) laid out by the Coq "
             "builder mix_layout (words, expected chain mix_chain and the boolean precondition mix_wf_layout all from the extracted model; two CFI "
